@@ -526,6 +526,91 @@ Lemma ndp_reply_iff s intf ns ll t :
   ndp_process s intf ns ll t = DNone <-> ns = true /\ ll = true /\ should_announce s t intf = DNone.
 Proof. unfold ndp_process. destruct ns, ll; cbn; intuition discriminate. Qed.
 
+(* ---------- which drop label is reported is free among the applicable reasons ---------- *)
+Lemma drop_eqb_eq a b : drop_eqb a b = true <-> a = b.
+Proof. destruct a, b; cbn; split; intro H; try reflexivity; try discriminate. Qed.
+
+Lemma reason_of_nil d : reason_of d = [] <-> d = DNone.
+Proof. destruct d; cbn; split; intro H; try reflexivity; discriminate. Qed.
+
+Lemma reason_of_no_none d : ~ In DNone (reason_of d).
+Proof. destruct d; cbn; intuition discriminate. Qed.
+
+Lemma admissible_none rs : ~ In DNone rs -> forall d, admissible rs d = true -> (d = DNone <-> rs = []).
+Proof.
+  intros NI d A. destruct rs as [|r rs'].
+  - cbn in A. apply drop_eqb_eq in A. intuition.
+  - split; [|discriminate]. intros ->. exfalso. apply NI.
+    unfold admissible in A. apply existsb_exists in A. destruct A as [x [Hx E]].
+    apply drop_eqb_eq in E. subst x. exact Hx.
+Qed.
+
+Lemma arp_reasons_no_none s intf mac op dst t : ~ In DNone (arp_reasons s intf mac op dst t).
+Proof.
+  unfold arp_reasons. intro H. apply in_app_or in H. destruct H as [H|H].
+  - destruct (negb (N.eqb op 1)); cbn in H; intuition discriminate.
+  - apply in_app_or in H. destruct H as [H|H].
+    + destruct (negb (N.eqb dst bcast) && negb (N.eqb dst mac)); cbn in H; intuition discriminate.
+    + exact (reason_of_no_none _ H).
+Qed.
+
+Lemma arp_reasons_nil_iff s intf mac op dst t :
+  arp_reasons s intf mac op dst t = [] <-> arp_process s intf mac op dst t = DNone.
+Proof.
+  unfold arp_reasons, arp_process.
+  destruct (negb (N.eqb op 1)); cbn [app]; [split; discriminate|].
+  destruct (negb (N.eqb dst bcast) && negb (N.eqb dst mac)); cbn [app]; [split; discriminate|].
+  apply reason_of_nil.
+Qed.
+
+(* the label the model reports is one of the admissible ones *)
+Lemma arp_process_admissible s intf mac op dst t :
+  admissible (arp_reasons s intf mac op dst t) (arp_process s intf mac op dst t) = true.
+Proof.
+  unfold arp_reasons, arp_process.
+  destruct (negb (N.eqb op 1)); cbn [app]; [reflexivity|].
+  destruct (negb (N.eqb dst bcast) && negb (N.eqb dst mac)); cbn [app]; [reflexivity|].
+  destruct (should_announce s t intf); reflexivity.
+Qed.
+
+(* whatever admissible label an implementation reports, it answers exactly when the model does *)
+Lemma arp_label_free s intf mac op dst t d :
+  admissible (arp_reasons s intf mac op dst t) d = true ->
+  (d = DNone <-> arp_process s intf mac op dst t = DNone).
+Proof.
+  intro A. rewrite <- arp_reasons_nil_iff. apply admissible_none; [apply arp_reasons_no_none|exact A].
+Qed.
+
+Lemma ndp_reasons_no_none s intf ns ll t : ~ In DNone (ndp_reasons s intf ns ll t).
+Proof.
+  unfold ndp_reasons. intro H. apply in_app_or in H. destruct H as [H|H].
+  - destruct (negb ns); cbn in H; intuition discriminate.
+  - apply in_app_or in H. destruct H as [H|H].
+    + destruct (negb ll); cbn in H; intuition discriminate.
+    + exact (reason_of_no_none _ H).
+Qed.
+
+Lemma ndp_reasons_nil_iff s intf ns ll t :
+  ndp_reasons s intf ns ll t = [] <-> ndp_process s intf ns ll t = DNone.
+Proof.
+  unfold ndp_reasons, ndp_process. destruct ns, ll; cbn [negb app]; try (split; discriminate).
+  apply reason_of_nil.
+Qed.
+
+Lemma ndp_process_admissible s intf ns ll t :
+  admissible (ndp_reasons s intf ns ll t) (ndp_process s intf ns ll t) = true.
+Proof.
+  unfold ndp_reasons, ndp_process. destruct ns, ll; cbn [negb app]; try reflexivity.
+  destruct (should_announce s t intf); reflexivity.
+Qed.
+
+Lemma ndp_label_free s intf ns ll t d :
+  admissible (ndp_reasons s intf ns ll t) d = true ->
+  (d = DNone <-> ndp_process s intf ns ll t = DNone).
+Proof.
+  intro A. rewrite <- ndp_reasons_nil_iff. apply admissible_none; [apply ndp_reasons_no_none|exact A].
+Qed.
+
 (* ---------- gratuitous ---------- *)
 Lemma gratuitous_guard s a : inv s ->
   (forall svc b, holds s svc b -> a_ip b <> a_ip a) -> gratuitous s a = [].
